@@ -3,6 +3,7 @@ package main
 import (
 	"context"
 	"fmt"
+	"sort"
 	"strings"
 	"sync"
 	"time"
@@ -234,8 +235,11 @@ func (s *backendSuite) runOp(ctx context.Context, b backend.Backend, t []string)
 	return pos[0] + " bad-op"
 }
 
-// streamStr renders a stream: data batches `hdr:kvs;` then the terminator(s) `end hdr err`.
+// streamStr renders a stream canonically: the workers of different partitions flush concurrently, so
+// the data is printed as the key-sorted list of `kv|hdr` entries (hdr = header revision of the batch the
+// kv arrived in), followed by the terminator(s) `end hdr err last|notlast` and their count.
 func streamStr(msgs []*proto.StreamRangeResponse) string {
+	var entries []string
 	var sb strings.Builder
 	ends := 0
 	for i, m := range msgs {
@@ -253,10 +257,16 @@ func streamStr(msgs []*proto.StreamRangeResponse) string {
 			fmt.Fprintf(&sb, "end %d %s %s;", m.RangeResponse.Header.GetRevision(), e, pos)
 			continue
 		}
-		fmt.Fprintf(&sb, "%d:%s;", m.RangeResponse.Header.GetRevision(), kvsStr(m.RangeResponse.Kvs))
+		for _, kv := range m.RangeResponse.Kvs {
+			entries = append(entries, fmt.Sprintf("%s|%d", kvStr(kv), m.RangeResponse.Header.GetRevision()))
+		}
 	}
-	fmt.Fprintf(&sb, " ends=%d", ends)
-	return sb.String()
+	sort.Strings(entries)
+	data := "-"
+	if len(entries) > 0 {
+		data = strings.Join(entries, ",")
+	}
+	return fmt.Sprintf("%s %s ends=%d", data, sb.String(), ends)
 }
 
 func classifyMsg(m string) string {
